@@ -76,4 +76,38 @@ end
 def effectiveOrder (opts : List Opt) : List IcptId :=
   wrapConfig (F := List IcptId) (fun i rest => i :: rest) (applyOpts opts none) []
 
+/-! ## scalar options: `WithReadMaxBytes` (the same shape serves every "last one wins" option)
+
+  `readMaxBytesOption.applyToClient/Handler` assigns its value to the config field; options are
+  applied in the order given, groups (`WithOptions`) in place. -/
+
+inductive SOpt where
+  | readMax (n : Nat)           -- WithReadMaxBytes(n); 0 = no limit
+  | group (os : List SOpt)
+  | other
+
+mutual
+def SOpt.apply : SOpt → Nat → Nat
+  | .readMax n, _ => n
+  | .group os, cur => SOpt.applyList os cur
+  | .other, cur => cur
+def SOpt.applyList : List SOpt → Nat → Nat
+  | [], cur => cur
+  | o :: os, cur => SOpt.applyList os (o.apply cur)
+end
+
+mutual
+/-- the values given, in declaration order -/
+def SOpt.values : SOpt → List Nat
+  | .readMax n => [n]
+  | .group os => SOpt.valuesList os
+  | .other => []
+def SOpt.valuesList : List SOpt → List Nat
+  | [] => []
+  | o :: os => o.values ++ SOpt.valuesList os
+end
+
+/-- is a message of `size` bytes within the limit `n` (0 = none)? -/
+def withinLimit (n size : Nat) : Bool := n == 0 || decide (size ≤ n)
+
 end ConnectModel
